@@ -146,6 +146,19 @@ def run(w: World, rep: Report):
                     break
         rep.check(rule, f'functions.{fi.name}|constraint-unsigned', dec_ok, line=fi.node.lineno, file=REL,
                   why='' if dec_ok else 'the constraint is not the popped stack item decoded as an unsigned big-endian integer')
+        # the only length a constraint may be refused for is zero: every guard / test that speaks about the length of
+        # a name is evaluated over the lengths 0..80 - anything but "at least one byte" refuses valid encodings (a
+        # 63-bit timestamp is 9 bytes in the signed minimal encoding `push d..` produces)
+        from .rules_c02 import _accepted_lengths
+        narrow = []
+        for t in cfg.nodes:
+            if t.kind == 'test' and t.ast is not None:
+                al = _accepted_lengths(t.ast)
+                if al is not None and al[1] not in (set(range(1, 81)), {0}):
+                    narrow.append((ast.unparse(t.ast)[:50], sorted(set(range(1, 81)) - al[1])[:3]))
+        rep.check(rule, f'functions.{fi.name}|constraint-any-length', not narrow, line=fi.node.lineno, file=REL,
+                  why='' if not narrow else f'`{narrow[0][0]}` refuses constraints of length {narrow[0][1]}..: the instruction '
+                  f'raises where the documented window gives true or false')
         # the clock is read once per decision
         clocks = cfg.nodes_with_call(lambda c: dotted(c.func) in ('time', 'time.time'))
         rep.check(rule, f'functions.{fi.name}|clock-read-once', len(clocks) == 1, line=fi.node.lineno, file=REL,
@@ -185,6 +198,7 @@ def run(w: World, rep: Report):
     except ImportError:
         rt = None
     if rt is not None and hasattr(rt, 'c16_builders'):
+        rt.exact_number_formatting(w, rep, 'C16.R5')
         rt.c16_builders(w, rep)
 
 
